@@ -131,6 +131,8 @@ struct LfFace {
     /// successful allocate / deallocate calls made through this face (prefill included)
     n_alloc: AtomicU64,
     n_free: AtomicU64,
+    /// free through deallocate_with_zero (the scrubbing variant) instead of deallocate
+    zero: bool,
 }
 impl PoolFace for LfFace {
     fn block_bytes(&self) -> Option<usize> {
@@ -144,7 +146,8 @@ impl PoolFace for LfFace {
         r
     }
     fn free(&self, block: usize) -> Result<(), String> {
-        let r = self.pool.deallocate(NonNull::new(block as *mut u8).unwrap(), self.size).map_err(|e| e.to_string());
+        let p = NonNull::new(block as *mut u8).unwrap();
+        let r = if self.zero { self.pool.deallocate_with_zero(p, self.size) } else { self.pool.deallocate(p, self.size) }.map_err(|e| e.to_string());
         if r.is_ok() {
             self.n_free.fetch_add(1, Relaxed);
         }
@@ -502,7 +505,7 @@ fn lf_face() -> Arc<dyn PoolFace> {
         enable_simd_optimization: false,
         zero_on_free: false,
     };
-    Arc::new(LfFace { pool: LockFreeMemoryPool::new(cfg).expect("lockfree pool"), size: 64, population: None, n_alloc: AtomicU64::new(0), n_free: AtomicU64::new(0) })
+    Arc::new(LfFace { pool: LockFreeMemoryPool::new(cfg).expect("lockfree pool"), size: 64, population: None, n_alloc: AtomicU64::new(0), n_free: AtomicU64::new(0), zero: false })
 }
 /// small backing region: the whole population can be drained at quiescence, so a block that a race dropped from the
 /// free structure is noticed ("no block is lost"); the reference population is measured on a fresh pool without threads
@@ -531,7 +534,25 @@ fn lf_face_small() -> Arc<dyn PoolFace> {
         }
         n
     });
-    Arc::new(LfFace { pool: LockFreeMemoryPool::new(lf_small_cfg()).expect("lockfree pool"), size: 64, population: Some(n), n_alloc: AtomicU64::new(0), n_free: AtomicU64::new(0) })
+    Arc::new(LfFace { pool: LockFreeMemoryPool::new(lf_small_cfg()).expect("lockfree pool"), size: 64, population: Some(n), n_alloc: AtomicU64::new(0), n_free: AtomicU64::new(0), zero: false })
+}
+/// the scrubbing free (`deallocate_with_zero`, zero_on_free + SIMD fill on) with a block size that is no power of two:
+/// the scrub must stay inside the freed block — the block behind it is another thread's, or a free block whose link
+/// word keeps the rest of the free list reachable
+fn lf_face_zero40() -> Arc<dyn PoolFace> {
+    fn cfg() -> LockFreePoolConfig {
+        LockFreePoolConfig { zero_on_free: true, enable_simd_optimization: true, ..lf_small_cfg() }
+    }
+    static POP: std::sync::OnceLock<usize> = std::sync::OnceLock::new();
+    let n = *POP.get_or_init(|| {
+        let p = LockFreeMemoryPool::new(cfg()).expect("lockfree pool");
+        let mut n = 0;
+        while n < 10_000 && p.allocate(40).is_ok() {
+            n += 1;
+        }
+        n
+    });
+    Arc::new(LfFace { pool: LockFreeMemoryPool::new(cfg()).expect("lockfree pool"), size: 40, population: Some(n), n_alloc: AtomicU64::new(0), n_free: AtomicU64::new(0), zero: true })
 }
 fn fl_cfg() -> FiveLevelPoolConfig {
     let mut c = FiveLevelPoolConfig::default();
@@ -814,6 +835,15 @@ fn main() {
             uaf_site: None,
         }));
         reg.add(Sched(PoolSpec {
+            name: "LockFreeMemoryPool[2 KiB, 40-byte blocks, deallocate_with_zero] H2d: whole population drained at quiescence, cross-thread free",
+            make: lf_face_zero40,
+            prefill: 3,
+            threads: vec![vec![Alloc, Alloc, Give, FreeOldest], vec![Alloc, FreeGiven, FreeOldest]],
+            bound_quick: 2,
+            bound_thorough: 4,
+            uaf_site: None,
+        }));
+        reg.add(Sched(PoolSpec {
             name: "five_level::LockFreePool[2 KiB, block = max_fast_block_size] H3c: whole population drained at quiescence, cross-thread free",
             make: fl_face_small,
             prefill: 3,
@@ -846,6 +876,7 @@ fn main() {
             ("SecureMemoryPool[local_cache=0]", secure_face_nocache as fn() -> Arc<dyn PoolFace>),
             ("SecureMemoryPool[local_cache=1]", secure_face),
             ("LockFreeMemoryPool[2 KiB]", lf_face_small),
+            ("LockFreeMemoryPool[2 KiB, 40-byte blocks, deallocate_with_zero]", lf_face_zero40),
             ("five_level::LockFreePool[2 KiB]", fl_face_small),
             ("FixedCapacityMemoryPool[3 blocks, lazy init]", fc_face_lazy),
             ("FixedCapacityMemoryPool[3 blocks of 4 KiB, secure_clear]", fc_face_secure_clear),
